@@ -508,6 +508,9 @@ impl Session {
     pub fn spawn(&mut self, peer: u32, h: u32, mark: bool, comps: &[CVal], parent: Option<u32>) {
         let pe = parent.and_then(|p| self.local_entity(peer, p));
         let w = self.peers[peer as usize].app.world_mut();
+        // the application only parents under an entity it can still see
+        let pe = pe.filter(|x| w.get_entity(*x).is_some());
+        let parent = if pe.is_some() { parent } else { None };
         let e = w.spawn_empty().id();
         for c in comps {
             insert_cval(w, e, c, &[]);
